@@ -548,6 +548,13 @@ class HookInterp(Interp):
         return super().call_builtin(ctx, name, args, kwargs)
 
     def call(self, ctx: Ctx, f: V, args: List[V], kwargs: Dict[str, V]) -> V:
+        from pyvc.symex import VExternal
+
+        if isinstance(f, VExternal):
+            # frame condition of a hook: it may call converter.structure and pure builtins only
+            self.site.__dict__.setdefault("frame_calls", [])
+            if f.dotted not in self.site.frame_calls:
+                self.site.frame_calls.append(f.dotted)
         if isinstance(f, VClass) and f.name in ("str", "int") and len(args) == 1 and isinstance(args[0], VJson):
             return self.call_builtin(ctx, f.name, args, kwargs)
         return super().call(ctx, f, args, kwargs)
